@@ -28,6 +28,82 @@ const wsClass = `\x{9}-\x{D}\x{20}\x{85}\x{A0}\x{1680}\x{2000}-\x{200A}\x{2028}\
 
 func runC19(c *Ctx) {
 	const r1 = "C19.R1 URI patterns accept exactly the prescribed languages"
+	ruleURIPatterns(c, r1)
+	c.R.Floor(r1, 13)
+
+	const r4 = "C19.R4 the URI rule configured for the realm reaches broker and dealer"
+	ruleRealmWiring(c, r4)
+	c.R.Floor(r4, 4)
+
+	const r2 = "C19.R2 prefix and wildcard matching"
+	ruleMatchFunctions(c, r2)
+	c.R.Floor(r2, 6)
+
+	const r3 = "C19.R3 id range and generators"
+	c.Guard(r3, "wamp.AsID", "id accepted", `^return:conv:wamp\.ID\(call:wamp\.AsInt64\(%v\)#0\), true$`, 1,
+		clause("numeric", T(`^call:wamp\.AsInt64\(%v\)#1$`)),
+		clause("greater than 0", T(`^\(0 < call:wamp\.AsInt64\(%v\)#0\)$`)),
+		clause("at most 2^53", F(`^\(9007199254740992 < call:wamp\.AsInt64\(%v\)#0\)$`)))
+	if fn := c.Fn(r3, "wamp.AsID"); fn != nil {
+		n := 0
+		for _, ex := range ir.Exits(fn, false) {
+			if strings.HasSuffix(ir.InstrDesc(ex), ", true") {
+				n++
+			}
+		}
+		c.R.Check(n == 1, r3, "wamp.AsID", "single accepting return", c.P.FuncPos(fn), fmt.Sprintf("%d accepting returns", n))
+	}
+	nx := "wamp.(*IDGen).Next"
+	c.Guard(r3, nx, "wrap to 1", `^store:%g\.&next=1$`, 1, clause("counter above 2^53", T(`^\(9007199254740992 < %g\.next\)$`)))
+	c.Has(r3, nx, "increment by one", `^store:%g\.&next=\(%g\.next \+ 1\)$`, 1)
+	c.Before(r3, nx, "increment before the wrap test", `^store:%g\.&next=\(%g\.next \+ 1\)$`, `^store:%g\.&next=1$`)
+	c.AllMatch(r3, nx, "counter only incremented or reset to 1", `^store:%g\.&next=`, `^store:%g\.&next=(\(%g\.next \+ 1\)|1)$`, 2)
+	c.Has(r3, nx, "returns the counter", `^return:%g\.next$`, 1)
+	c.Has(r3, "wamp.(*SyncIDGen).Next", "synchronised generator delegates under its lock", `^call:wamp\.\(\*IDGen\)\.Next\(%g\.&IDGen\)$`, 1)
+	c.Before(r3, "wamp.(*SyncIDGen).Next", "lock before next", `^call:\(\*sync\.Mutex\)\.Lock\(%g\.&lock\)$`, `^call:wamp\.\(\*IDGen\)\.Next\(`)
+	// (the bounded random draw is a helper over crypto/rand.Int, or that call itself)
+	c.Has(r3, "wamp.GlobalID", "random id in [1, 2^53]", `^return:\(conv:uint64\((call:wamp\.secureInt63n\(9007199254740992\)|call:\(\*math/big\.Int\)\.Int64\(call:crypto/rand\.Int\(\*g:crypto/rand\.Reader, call:math/big\.NewInt\(9007199254740992\)\)#0\))\) \+ 1\)$`, 1)
+	in := "wamp.(*Session).IsNewRecvID"
+	c.Guard(r3, in, "any accepting answer", `^return:true$|^return:\(\(9007199254740992 - \(%s\.lastRecvID - %id\)\) < 500\)$`, 3,
+		clause("id is not 0", F(`^\(%id == 0\)$`)), clause("id at most 2^53", F(`^\(9007199254740992 < %id\)$`)))
+	c.Has(r3, in, "wrap-around window expression", `^(return|val):\(\(9007199254740992 - \(%s\.lastRecvID - %id\)\) < 500\)$`, 1)
+	c.Guard(r3, in, "window applies only to smaller ids", `^return:\(\(9007199254740992 - `, 1, clause("not larger than last", F(`^\(%s\.lastRecvID < %id\)$`)), clause("not equal to last", F(`^\(%id == %s\.lastRecvID\)$`)),
+		clause("some id seen before", F(`^\(%s\.lastRecvID == 0\)$`)))
+	// session id generator is the synchronised one
+	if sp := c.P.ByRel["wamp"]; sp != nil {
+		obj := sp.Types.Scope().Lookup("Session")
+		ok := false
+		if obj != nil {
+			if st, isSt := obj.Type().Underlying().(interface{ NumFields() int }); isSt {
+				_ = st
+			}
+			ok = strings.Contains(obj.Type().Underlying().String(), "IDGen github.com/gammazero/nexus/v3/wamp.SyncIDGen")
+		}
+		c.R.Check(ok, r3, "wamp.Session", "session request ids come from the synchronised generator", "-", "Session.IDGen is not a SyncIDGen: concurrent API calls can draw the same request id")
+	}
+	ruleLastRecvID(c, r3)
+	c.R.Floor(r3, 19)
+}
+
+// ruleMatchFunctions: PrefixMatch is strings.HasPrefix; WildcardMatch compares component counts and every non-empty
+// pattern component for equality, from the first component on.
+func ruleMatchFunctions(c *Ctx, r2 string) {
+	c.Has(r2, "wamp.(URI).PrefixMatch", "topic starts with the prefix", `^return:call:strings\.HasPrefix\(%u, %prefix\)$`, 1)
+	wm := "wamp.(URI).WildcardMatch"
+	up, wp := `call:strings\.Split\(%u, "\."\)`, `call:strings\.Split\(%wildcard, "\."\)`
+	idx := `\(phi\(\(phi↺ \+ 1\)\|-1\) \+ 1\)`
+	c.Guard(r2, wm, "match", `^return:true$`, 1,
+		clause("same number of components", T(`^\(call:builtin:len\(`+up+`\) == call:builtin:len\(`+wp+`\)\)$`)),
+		clause("every pattern component was examined", F(`^\(`+idx+` < call:builtin:len\(`+wp+`\)\)$`)))
+	mismatch := clause("a non-empty pattern component differs", F(`^\(`+up+`\[`+idx+`\] == `+wp+`\[`+idx+`\]\)$`))
+	c.Reach(r2, wm, "a differing non-empty component rejects", ReachSpec{FromEdge: &mismatch, Target: `^return:true$|^val:phi`, Want: false})
+	c.Guard(r2, wm, "component comparison", `^val:\((`+up+`\[`+idx+`\] != `+wp+`\[`+idx+`\]|`+wp+`\[`+idx+`\] != `+up+`\[`+idx+`\])\)$`, 1, clause("pattern component is not empty", F(`^\(`+wp+`\[`+idx+`\] == ""\)$`)))
+	c.Has(r2, wm, "loop covers the components from the first one", `^val:\(`+idx+` < call:builtin:len\(`+wp+`\)\)$`, 1)
+}
+
+// ruleURIPatterns: the six URI patterns accept exactly the prescribed languages and ValidURI dispatches to the one
+// selected by (strict, match policy).
+func ruleURIPatterns(c *Ctx, r1 string) {
 	loose := `[^` + wsClass + `\.#]`
 	strict := `[0-9a-z_]`
 	ref := map[string]string{
@@ -115,74 +191,4 @@ func runC19(c *Ctx) {
 		n := len(ir.Exits(fn, false))
 		c.R.Check(n == 6, r1, vu, "exactly six outcomes, each a pattern match", c.P.FuncPos(fn), fmt.Sprintf("found %d returns", n))
 	}
-	c.R.Floor(r1, 13)
-
-	const r4 = "C19.R4 the URI rule configured for the realm reaches broker and dealer"
-	ruleRealmWiring(c, r4)
-	c.R.Floor(r4, 4)
-
-	const r2 = "C19.R2 prefix and wildcard matching"
-	ruleMatchFunctions(c, r2)
-	c.R.Floor(r2, 6)
-
-	const r3 = "C19.R3 id range and generators"
-	c.Guard(r3, "wamp.AsID", "id accepted", `^return:conv:wamp\.ID\(call:wamp\.AsInt64\(%v\)#0\), true$`, 1,
-		clause("numeric", T(`^call:wamp\.AsInt64\(%v\)#1$`)),
-		clause("greater than 0", T(`^\(0 < call:wamp\.AsInt64\(%v\)#0\)$`)),
-		clause("at most 2^53", F(`^\(9007199254740992 < call:wamp\.AsInt64\(%v\)#0\)$`)))
-	if fn := c.Fn(r3, "wamp.AsID"); fn != nil {
-		n := 0
-		for _, ex := range ir.Exits(fn, false) {
-			if strings.HasSuffix(ir.InstrDesc(ex), ", true") {
-				n++
-			}
-		}
-		c.R.Check(n == 1, r3, "wamp.AsID", "single accepting return", c.P.FuncPos(fn), fmt.Sprintf("%d accepting returns", n))
-	}
-	nx := "wamp.(*IDGen).Next"
-	c.Guard(r3, nx, "wrap to 1", `^store:%g\.&next=1$`, 1, clause("counter above 2^53", T(`^\(9007199254740992 < %g\.next\)$`)))
-	c.Has(r3, nx, "increment by one", `^store:%g\.&next=\(%g\.next \+ 1\)$`, 1)
-	c.Before(r3, nx, "increment before the wrap test", `^store:%g\.&next=\(%g\.next \+ 1\)$`, `^store:%g\.&next=1$`)
-	c.AllMatch(r3, nx, "counter only incremented or reset to 1", `^store:%g\.&next=`, `^store:%g\.&next=(\(%g\.next \+ 1\)|1)$`, 2)
-	c.Has(r3, nx, "returns the counter", `^return:%g\.next$`, 1)
-	c.Has(r3, "wamp.(*SyncIDGen).Next", "synchronised generator delegates under its lock", `^call:wamp\.\(\*IDGen\)\.Next\(%g\.&IDGen\)$`, 1)
-	c.Before(r3, "wamp.(*SyncIDGen).Next", "lock before next", `^call:\(\*sync\.Mutex\)\.Lock\(%g\.&lock\)$`, `^call:wamp\.\(\*IDGen\)\.Next\(`)
-	// (the bounded random draw is a helper over crypto/rand.Int, or that call itself)
-	c.Has(r3, "wamp.GlobalID", "random id in [1, 2^53]", `^return:\(conv:uint64\((call:wamp\.secureInt63n\(9007199254740992\)|call:\(\*math/big\.Int\)\.Int64\(call:crypto/rand\.Int\(\*g:crypto/rand\.Reader, call:math/big\.NewInt\(9007199254740992\)\)#0\))\) \+ 1\)$`, 1)
-	in := "wamp.(*Session).IsNewRecvID"
-	c.Guard(r3, in, "any accepting answer", `^return:true$|^return:\(\(9007199254740992 - \(%s\.lastRecvID - %id\)\) < 500\)$`, 3,
-		clause("id is not 0", F(`^\(%id == 0\)$`)), clause("id at most 2^53", F(`^\(9007199254740992 < %id\)$`)))
-	c.Has(r3, in, "wrap-around window expression", `^(return|val):\(\(9007199254740992 - \(%s\.lastRecvID - %id\)\) < 500\)$`, 1)
-	c.Guard(r3, in, "window applies only to smaller ids", `^return:\(\(9007199254740992 - `, 1, clause("not larger than last", F(`^\(%s\.lastRecvID < %id\)$`)), clause("not equal to last", F(`^\(%id == %s\.lastRecvID\)$`)),
-		clause("some id seen before", F(`^\(%s\.lastRecvID == 0\)$`)))
-	// session id generator is the synchronised one
-	if sp := c.P.ByRel["wamp"]; sp != nil {
-		obj := sp.Types.Scope().Lookup("Session")
-		ok := false
-		if obj != nil {
-			if st, isSt := obj.Type().Underlying().(interface{ NumFields() int }); isSt {
-				_ = st
-			}
-			ok = strings.Contains(obj.Type().Underlying().String(), "IDGen github.com/gammazero/nexus/v3/wamp.SyncIDGen")
-		}
-		c.R.Check(ok, r3, "wamp.Session", "session request ids come from the synchronised generator", "-", "Session.IDGen is not a SyncIDGen: concurrent API calls can draw the same request id")
-	}
-	ruleLastRecvID(c, r3)
-	c.R.Floor(r3, 19)
-}
-
-// ruleMatchFunctions: PrefixMatch is strings.HasPrefix; WildcardMatch compares component counts and every non-empty
-// pattern component for equality, from the first component on.
-func ruleMatchFunctions(c *Ctx, r2 string) {
-	c.Has(r2, "wamp.(URI).PrefixMatch", "topic starts with the prefix", `^return:call:strings\.HasPrefix\(%u, %prefix\)$`, 1)
-	wm := "wamp.(URI).WildcardMatch"
-	up, wp := `call:strings\.Split\(%u, "\."\)`, `call:strings\.Split\(%wildcard, "\."\)`
-	idx := `\(phi\(\(phi↺ \+ 1\)\|-1\) \+ 1\)`
-	c.Guard(r2, wm, "match", `^return:true$`, 1,
-		clause("same number of components", T(`^\(call:builtin:len\(`+up+`\) == call:builtin:len\(`+wp+`\)\)$`)),
-		clause("every pattern component was examined", F(`^\(`+idx+` < call:builtin:len\(`+wp+`\)\)$`)))
-	mismatch := clause("a non-empty pattern component differs", F(`^\(`+up+`\[`+idx+`\] == `+wp+`\[`+idx+`\]\)$`))
-	c.Reach(r2, wm, "a differing non-empty component rejects", ReachSpec{FromEdge: &mismatch, Target: `^return:true$|^val:phi`, Want: false})
-	c.Guard(r2, wm, "component comparison", `^val:\((`+up+`\[`+idx+`\] != `+wp+`\[`+idx+`\]|`+wp+`\[`+idx+`\] != `+up+`\[`+idx+`\])\)$`, 1, clause("pattern component is not empty", F(`^\(`+wp+`\[`+idx+`\] == ""\)$`)))
-	c.Has(r2, wm, "loop covers the components from the first one", `^val:\(`+idx+` < call:builtin:len\(`+wp+`\)\)$`, 1)
 }
